@@ -100,7 +100,7 @@ func (h *c15Hist) Down(from, to int64) {
 
 // Probe emits Get (kind 2) or Get1 (kind 3) if j is inside the domain.
 func (h *c15Hist) Probe(kind int, j int64) bool {
-	if j < 0 || j >= h.end {
+	if j < -(1<<40) || j >= h.end {
 		return false
 	}
 	switch {
@@ -162,7 +162,7 @@ func (h *c15Hist) probePoints(last int64) []int64 {
 	off := h.offset()
 	return []int64{last, last - 1, last + 1, last ^ 63, last + 64, last - 64,
 		off - 1, off, off + 1, off + 63, off + 64, h.first, h.first - 1, h.first + 1,
-		h.end - 1, h.end - 64, h.end - 65, 0, 63, 64, h.o - 1, h.o, h.o - 64}
+		h.end - 1, h.end - 64, h.end - 65, 0, 63, 64, h.o - 1, h.o, h.o - 64, -1, -64, -65}
 }
 
 func (h *c15Hist) randomProbes(g *Gen, last int64, n int) {
@@ -185,9 +185,6 @@ func (h *c15Hist) randomProbes(g *Gen, last int64, n int) {
 // implicit word (and all positions when full is set).
 func (h *c15Hist) sweep(full bool) {
 	lo := h.o - 128
-	if lo < 0 {
-		lo = 0
-	}
 	for j := lo; j < h.end; j++ {
 		m := j & 63
 		if full || m <= 1 || m >= 62 || m == 31 || m == 32 || h.set[j] != h.set[j+1] || (j > 0 && h.set[j] != h.set[j-1]) {
@@ -202,7 +199,11 @@ func genC15(g *Gen) {
 	// the first two words, probes at all edge positions after the last call
 	// (and after every call for L <= 2).
 	maxL := g.N(3, 4)
-	for _, o := range []int64{0, 64, 640} {
+	exhO := []int64{0, 64, -64}
+	if g.Thorough {
+		exhO = []int64{0, 64, -64, -128, 640}
+	}
+	for _, o := range exhO {
 		type act func(h *c15Hist)
 		alpha := []act{
 			func(h *c15Hist) { h.Set(o - 1) },
@@ -242,12 +243,12 @@ func genC15(g *Gen) {
 			lev(nil)
 		}
 	}
-	g.Exhaust = append(g.Exhaust, fmt.Sprintf("all histories of 1..%d calls over an 11-call alphabet (Set at o-1,o,o+63,o+64,o+127,o+130; Compact; bulk fills of word 0 minus one bit, word 1, word 2) for o in {0,64,640}, Get and Get1 probed at every word-edge and set-edge position", maxL))
+	g.Exhaust = append(g.Exhaust, fmt.Sprintf("all histories of 1..%d calls over an 11-call alphabet (Set at o-1,o,o+63,o+64,o+127,o+130; Compact; bulk fills of word 0 minus one bit, word 1, word 2) for o in {0,64,-64} (thorough: also -128, 640), Get and Get1 probed at every word-edge and set-edge position", maxL))
 
 	// (2) structured random histories
 	nh := g.N(2500, 40000)
 	for k := 0; k < nh; k++ {
-		o := int64(64 * g.R.Pick(0, 0, 1, 2, 3, 10, 100, 1000, 1<<20, 1<<33))
+		o := int64(64 * g.R.Pick(0, 0, 1, 2, 3, 10, 100, 1000, 1<<20, 1<<33, -1, -1, -2, -3, -100, -(1 << 20), -(1 << 33)))
 		h := c15New(o)
 		W := int64(g.R.Range(1, 6))
 		if g.R.Intn(8) == 0 {
@@ -514,4 +515,5 @@ func genC15(g *Gen) {
 	// widened operations (harness/c15lit.go)
 	genC15Literal(g)
 	genC15Words(g)
+	genC15Int64(g)
 }
